@@ -334,6 +334,21 @@ impl C09 {
                     let m = PLax { w: p.w.iter().map(|o| format!("sort-{}", o)).collect::<Vec<String>>(), e: p.e.clone(), s: p.s.clone(), t: p.t.clone(), q: p.q.clone() };
                     self.judge_other_labels(ctx, "heap_labels", &m);
                 }
+                2 => {
+                    // labels whose equality is coarser than identity: every new node must carry the label *of a member of
+                    // its fibre*, not merely an equal one
+                    ctx.class("node_labels_with_coarse_equality");
+                    let m: PLax<Tag, u64> = PLax { w: p.w.iter().enumerate().map(|(i, o)| Tag { sort: *o, id: i as u32 }).collect(), e: p.e.clone(), s: p.s.clone(), t: p.t.clone(), q: p.q.clone() };
+                    self.judge_other_labels(ctx, "coarse_equality_labels", &m);
+                    let mut f = to_lax(&m);
+                    if let Ok(Ok(q)) = guard(|| f.quotient()) {
+                        let qt = &q.table.0;
+                        let ok = qt.len() == m.w.len() && f.hypergraph.nodes.iter().enumerate().all(|(c, l)| (0..m.w.len()).any(|i| qt[i] == c && m.w[i].id == l.id && m.w[i].sort == l.sort));
+                        ctx.check(ok, "OpenHypergraph::quotient/new-node-carries-a-label-of-its-fibre/value/coarse_equality_labels", || {
+                            json!({"input": show_lax(&m), "observed_q": qt, "observed_labels": format!("{:?}", f.hypergraph.nodes)})
+                        });
+                    }
+                }
                 1 => {
                     ctx.class("node_labels_of_size_zero");
                     let m = PLax { w: vec![(); p.w.len()], e: p.e.clone(), s: p.s.clone(), t: p.t.clone(), q: p.q.clone() };
@@ -548,6 +563,7 @@ impl Monitor for C09 {
             ("class:label_consistent", 200),
             ("class:node_labels_on_the_heap", 200),
             ("class:node_labels_of_size_zero", 200),
+            ("class:node_labels_with_coarse_equality", 200),
             ("events:history_absorbs_a_diagram_with_pending_pairs", 500),
             ("class:history_deletes_one_endpoint_of_a_pending_pair", 100),
             ("class:long_unification_chain_on_a_thread_stack", 6),
